@@ -66,9 +66,10 @@ PickTwo ==
     /\ phase = "start"
     /\ \E ak \in TwoKids("x"), bk \in TwoKids("y") : A' = Root(NSA, <<>>, ak) /\ B' = Root(NSB, <<>>, bk)
     /\ phase' = "two"
+(* b2 = "s" with s1 = "z": A's first namespace is B's second one (a forgotten reorder) - refused like any other pair of first namespaces that differ *)
 PickRoot ==
     /\ phase = "start"
-    /\ \E s1 \in {"s", "z"}, b2 \in {"b", "a"}, da \in Docs3, db \in Docs3, ck \in OptMap({Class(<<"K", "x">>, <<>>, <<>>)}) :
+    /\ \E s1 \in {"s", "z"}, b2 \in {"b", "a", "s"}, da \in Docs3, db \in Docs3, ck \in OptMap({Class(<<"K", "x">>, <<>>, <<>>)}) :
         /\ A' = Root(NSA, da, ck) /\ B' = Root(<<s1, b2>>, db, <<>>)
     /\ phase' = "root"
 
